@@ -37,6 +37,7 @@ def run(ctx):
     r1_compare(chk, fx)
     r2_family(chk, fx)
     r3_envelope(chk, fx)
+    r4_installed_reader(chk, fx)
 
 
 def r1_compare(chk, fx):
@@ -252,3 +253,247 @@ def r3_envelope(chk, fx):
         nm = AC.child(ps, "name")
         chk.instance("C01/R3", "%s: <name> carries the update's own policy name" % var, fn, None,
                      holds=nm is not None and "AsRef::as_ref(name)" in str(nm.get("text")), key="C01/R3 envelope name %s" % var)
+
+
+# ---------------------------------------------------------------------------------------------
+# C01/R4 — the value path of the agent's reader of its own installed state ("every state the agent installs can be
+# read back"): the installed set that compare() diffs against must be the *whole* set of route-filters Junos returns,
+# with address / length bounds taken from the elements the writer put them in.
+# ---------------------------------------------------------------------------------------------
+ITER_OK = ("Iterator::collect", "Iterator::map", "slice::iter", "IntoIterator::into_iter", "Deref::deref", "Vec::iter",
+           "Result::map", "Result::map_err")
+
+
+def _chain(e):
+    """Outermost-first list of (short fn name, node) following the first argument; ends with the root expression."""
+    out = []
+    e = T.peel(e)
+    while e.get("k") == "Call" and e.get("fn") and e.get("args"):
+        out.append((T.short(e["fn"], 2), e))
+        e = T.peel(e["args"][0])
+    return out, e
+
+
+def _closure_thir(fx, node):
+    d = node.get("def") if node.get("k") == "Closure" else None
+    return fx.thir.get(d) if d else None
+
+
+def _template_pieces(s):
+    """Decode rustc's packed format_args template (as far as the lossy JSON allows): list of str | ARG."""
+    out, i = [], 0
+    while i < len(s):
+        c = ord(s[i])
+        if c == 0:
+            break
+        if s[i] == "�" or c >= 0x80:
+            out.append(None)
+            i += 1
+            continue
+        out.append(s[i + 1:i + 1 + c])
+        i += 1 + c
+    return out
+
+
+def _tuple_binds(pat):
+    """(name0, name1) of a 2-tuple pattern of plain bindings."""
+    while pat is not None and pat.get("k") == "Deref":
+        pat = pat["sub"]
+    if pat is None or pat.get("k") != "Leaf" or len(pat.get("sub", [])) != 2:
+        return None
+    names = {}
+    for s in pat["sub"]:
+        names[s["field"]] = _bind_name(s["pat"])
+    return names.get("0"), names.get("1")
+
+
+def _var_under(e, allowed=("str::parse", "Context::context", "Deref::deref", "Into::into", "From::from", "str::trim")):
+    """The variable / field path an expression derives from through value-preserving conversions only."""
+    e = T.peel(e)
+    while True:
+        if e.get("k") == "Try":
+            e = T.peel(e["arg"])
+        elif e.get("k") == "Call" and e.get("fn") and T.short(e["fn"], 2) in allowed and e.get("args"):
+            e = T.peel(e["args"][0])
+        else:
+            break
+    return X.ntext(e)
+
+
+def r4_installed_reader(chk, fx):
+    tir = None
+    for n in fx.thir:
+        if n.endswith("::try_into_ranges") and "TermFrom" in n:
+            tir = n
+    if tir is None:
+        raise F.AnchorLost("TermFrom::try_into_ranges not found")
+    chk.analysed(tir)
+    t = fx.thir[tir]
+    body = T.user_body(t)
+    tail = body.get("expr") if body.get("k") == "Block" else body
+    ch, root = _chain(tail)
+    names = [c[0] for c in ch]
+    bad = [x for x in names if x not in ITER_OK]
+    ok = X.ntext(root) == "self.route_filters" and not bad and "Iterator::collect" in names and "Iterator::map" in names
+    chk.instance("C01/R4", "try_into_ranges converts every installed route-filter (chain: %s over %s)" % (" <- ".join(names), X.ntext(root)), tir,
+                 loc_of(t.get("sp")), holds=ok, key="C01/R4 try_into_ranges iterates-all-route-filters",
+                 detail=("unrecognised adaptor(s) %s: a filter/skip/take/dedup here makes the installed set the agent diffs against "
+                         "smaller than what is installed" % bad) if bad else None)
+    # the per-route-filter closure
+    mp = [c[1] for c in ch if c[0] == "Iterator::map"]
+    clo = _closure_thir(fx, T.peel(mp[0]["args"][1])) if mp else None
+    if clo is None:
+        chk.instance("C01/R4", "per-route-filter conversion closure found", tir, None, holds=False, key="C01/R4 try_into_ranges closure unrecognised form")
+        return
+    cb = T.norm(clo["body"])
+    wl = [c for c in T.calls(cb) if c["fn"].endswith("::with_length_range")]
+    ok = len(wl) == 1
+    chk.instance("C01/R4", "one PrefixRange::with_length_range call builds the range", clo["def"], loc_of(clo.get("sp")), holds=ok,
+                 key="C01/R4 try_into_ranges with_length_range unrecognised form")
+    if not ok:
+        return
+    w = wl[0]
+    base, rng = T.peel(w["args"][0]), T.peel(w["args"][1])
+    lets = {}
+    for s in T.walk(cb):
+        if s.get("k") == "LetStmt" and s.get("init") is not None:
+            lets[T.pat_str(s["pat"])] = s
+    # base <- route_filter.address
+    bsrc = None
+    if base.get("k") == "Var" and base["name"] in lets:
+        bsrc = _var_under(lets[base["name"]]["init"])
+    chk.instance("C01/R4", "range base is parsed from the route-filter's <address> (%s)" % bsrc, clo["def"], loc_of(w.get("sp")),
+                 holds=bsrc == "route_filter.address", key="C01/R4 try_into_ranges base-from-address")
+    # (lower, upper) order through split_once -> closure -> tuple -> RangeInclusive::new
+    ok = rng.get("k") == "Call" and rng.get("fn", "").endswith("RangeInclusive::<Idx>::new") or (rng.get("k") == "Call" and "RangeInclusive" in rng.get("fn", ""))
+    order_ok, sep = False, None
+    if ok and len(rng["args"]) == 2:
+        a0, a1 = T.peel(rng["args"][0]), T.peel(rng["args"][1])
+        for ps, s in lets.items():
+            tb = _tuple_binds(s["pat"])
+            if tb and a0.get("k") == "Var" and a1.get("k") == "Var" and tb == (a0["name"], a1["name"]):
+                init = s["init"]
+                sp = [c for c in T.calls(init) if c["fn"].endswith("::split_once")]
+                if len(sp) == 1 and _var_under(sp[0]["args"][0]) == "route_filter.prefix_length_range":
+                    sepn = T.peel(sp[0]["args"][1])
+                    sep = sepn.get("v") if sepn.get("k") == "Lit" else None
+                    # the and_then closure maps (l, u) -> Ok((parse(l), parse(u)))
+                    at = [c for c in T.calls(init) if T.short(c["fn"], 2) in ("Result::and_then", "Result::map", "Option::map", "Option::and_then")]
+                    conv_ok = True
+                    n_conv = 0
+                    for c in at:
+                        cl = _closure_thir(fx, T.peel(c["args"][1]))
+                        if cl is None:
+                            continue
+                        pb = None
+                        for p in cl.get("params", []):
+                            if p.get("pat") is not None:
+                                pb = _tuple_binds(p["pat"])
+                        tups = [x for x in T.walk(T.norm(cl["body"])) if x.get("k") == "Tuple" and len(x.get("fields", [])) == 2]
+                        if pb and tups:
+                            n_conv += 1
+                            tu = tups[0]
+                            conv_ok = conv_ok and (_var_under(tu["fields"][0]), _var_under(tu["fields"][1])) == pb
+                    order_ok = conv_ok and n_conv >= 1
+    chk.instance("C01/R4", "length bounds keep their order: split_once(prefix_length_range, %r) -> (l,u) -> (parse l, parse u) -> lower..=upper" % sep,
+                 clo["def"], loc_of(w.get("sp")), holds=bool(order_ok), key="C01/R4 try_into_ranges bounds-order")
+    # writer/reader agreement on the leaf format
+    wr = None
+    for n, tt in fx.thir.items():
+        if "policies::load::write_route_filter" in n:
+            for c in T.walk(tt["body"]):
+                if c.get("k") == "Lit" and c.get("lk") == "bytes" and (c.get("sp") or {}).get("m") in ("format", "format_args"):
+                    wr = (n, c)
+    if wr is None:
+        raise F.AnchorLost("write_route_filter: prefix-length-range format template not found")
+    pieces = _template_pieces(wr[1]["v"])
+    args = [i for i, p in enumerate(pieces) if p is None]
+    ok = len(args) == 2 and sep is not None
+    if ok:
+        before = "".join(p for p in pieces[:args[0]] if p)
+        between = "".join(p for p in pieces[args[0] + 1:args[1]] if p)
+        after = "".join(p for p in pieces[args[1] + 1:] if p)
+        ok = between.count(str(sep)) == 1 and str(sep) not in before and str(sep) not in after
+    chk.instance("C01/R4", "writer's prefix-length-range template %r has the reader's separator %r exactly once, between lower and upper" % (
+        ["{}" if p is None else p for p in pieces], sep), wr[0], loc_of(wr[1].get("sp")), holds=ok, key="C01/R4 length-range format writer/reader agreement")
+    # RouteFilter / TermFrom readers: which element feeds which field
+    for (rd, want) in (("RouteFilter<'i>", {"address": "address", "prefix_length_range": "choice-value"}),
+                       ("TermFrom<'i>", {"family": "family"})):
+        rn = "<" + FETCH + rd + " as " + FETCH + "BorrowedReadXml<'i>>::borrowed_read_xml"
+        rt = fx.thir.get(rn)
+        if rt is None:
+            raise F.AnchorLost("reader %s not found" % rn)
+        chk.analysed(rn)
+        got = {}
+        for m in T.find(T.norm(rt["body"]), "Match"):
+            for a in m["arms"]:
+                g = X.ntext(a["guard"]) if a.get("guard") else ""
+                el = None
+                import re
+                mm = re.search(r'local_name\(tag\)\),b"([^"]+)"\)', g)
+                if mm:
+                    el = mm.group(1)
+                if el is None:
+                    continue
+                for asg in T.find(a["body"], "Assign"):
+                    lhs = T.peel(asg["lhs"])
+                    if lhs.get("k") == "Var" and "read_text" in X.ntext(asg["rhs"]):
+                        # innermost enclosing element wins: nested arms are visited later and overwrite
+                        inner_arm_el = el
+                        got.setdefault(lhs["name"], set()).add(inner_arm_el)
+        for field, elname in want.items():
+            src = got.get(field, set())
+            # a nested arm's assignment is seen under both the outer and the inner element; the inner one must be the wanted one
+            ok = elname in src and src <= {elname, "choice-ident"}
+            chk.instance("C01/R4", "%s.%s is the text of <%s> (assigned under %s)" % (rd.split("<")[0], field, elname, sorted(src)), rn, loc_of(rt.get("sp")),
+                         holds=ok, key="C01/R4 %s field %s source" % (rd.split("<")[0], field))
+        # struct literal wires each local to its own field
+        lit = [a for a in T.find(T.norm(rt["body"]), "Adt") if a["adt"].endswith("fetch::" + rd.split("<")[0])]
+        ok = len(lit) == 1
+        if ok:
+            for f in lit[0]["fields"]:
+                ok = ok and _var_under(f["expr"], allowed=("Option::ok_or", "Option::ok_or_else")) == f["name"]
+        chk.instance("C01/R4", "%s{..} stores each collected value in the field of the same name" % rd.split("<")[0], rn, loc_of(rt.get("sp")), holds=ok,
+                     key="C01/R4 %s literal wiring" % rd.split("<")[0])
+    # every <route-filter> is pushed, unconditionally
+    rn = "<" + FETCH + "TermFrom<'i> as " + FETCH + "BorrowedReadXml<'i>>::borrowed_read_xml"
+    rt = fx.thir[rn]
+    pushes = []
+    for m in T.find(T.norm(rt["body"]), "Match"):
+        for a in m["arms"]:
+            g = X.ntext(a["guard"]) if a.get("guard") else ""
+            if 'b"route-filter"' in g:
+                only_name = g.count("PartialEq::eq") == 1 and "And" not in g and "Or" not in g
+                ps = [c for c in T.calls(a["body"]) if c["fn"].endswith("Vec::<T, A>::push") or T.short(c["fn"], 2) == "Vec::push"]
+                conditional = bool(T.find(a["body"], "If")) or any(mm is not m for mm in T.find(a["body"], "Match") if not str(mm.get("src", "")).startswith(("TryDesugar", "AwaitDesugar")))
+                pushes.append((only_name, len(ps), conditional, a))
+    ok = len(pushes) == 1 and pushes[0][0] and pushes[0][1] == 1 and not pushes[0][2]
+    if ok:
+        p = [c for c in T.calls(pushes[0][3]["body"]) if T.short(c["fn"], 2) == "Vec::push"][0]
+        ok = X.ntext(p["args"][0]) == "route_filters"
+    chk.instance("C01/R4", "every <route-filter> of a term is read and pushed (arm guarded by the element name only, one unconditional push)", rn,
+                 loc_of(pushes[0][3].get("sp")) if pushes else None, holds=ok, key="C01/R4 TermFrom pushes-every-route-filter")
+    # Maybe<Installed>: family arm table
+    rn = "<" + FETCH + "Maybe<" + AGENT + "::policies::Installed> as netconf::message::ReadXml>::read_xml"
+    rt = fx.thir.get(rn)
+    if rt is None:
+        raise F.AnchorLost("reader %s not found" % rn)
+    chk.analysed(rn)
+    fam = {}
+    for m in T.find(T.norm(rt["body"]), "Match"):
+        if "term.from.family" not in X.ntext(m["scrut"]):
+            continue
+        for a in m["arms"]:
+            v = T.const_pat_value(a["pat"])
+            if v is None:
+                continue
+            for asg in T.find(a["body"], "Assign"):
+                c = [c for c in T.calls(asg["rhs"]) if c["fn"].endswith("::try_into_ranges")]
+                fam[v] = (X.ntext(asg["lhs"]), c[0]["gargs"][-1] if c else None, X.ntext(c[0]["args"][0]) if c else None)
+    ok = fam == {"inet": ("ipv4", "ip::Ipv4", "term.from"), "inet6": ("ipv6", "ip::Ipv6", "term.from")}
+    chk.instance("C01/R4", "installed term table: inet -> ipv4 = term.from as Ipv4 ranges, inet6 -> ipv6 = term.from as Ipv6 ranges (%s)" % fam, rn,
+                 loc_of(rt.get("sp")), holds=ok, key="C01/R4 Maybe<Installed> family table")
+    lit = [a for a in T.find(T.norm(rt["body"]), "Adt") if a["adt"].endswith("policies::Installed")]
+    ok = len(lit) == 1 and all(_var_under(f["expr"], allowed=("Option::unwrap_or_default",)) == f["name"] for f in lit[0]["fields"])
+    chk.instance("C01/R4", "Installed{ipv4, ipv6} takes the collected sets (absent family = empty set)", rn, loc_of(rt.get("sp")), holds=ok,
+                 key="C01/R4 Maybe<Installed> literal wiring")
